@@ -277,7 +277,8 @@ class TextLinesCursor(Cursor):
         return res
 
     def _matchre_fast(self, pattern: str | re.Pattern | None) -> bool:
-        if not (match := self._scanre(pattern)):
+        if not (match := self._scanre(pattern)) or not match.group():
+            # an empty match eats nothing (and would repeat forever)
             return False
         self.goto(match.end())
         return True
